@@ -84,6 +84,22 @@ func nwRun(in *nwInput, r *rand.Rand, sink *CaseSink, replay bool) {
 			}
 			in.Progs = append(in.Progs, prog)
 		}
+		if r.Intn(4) == 0 {
+			// delete duel on a version born in the current epoch: one writer puts the key, then all of
+			// them delete it (both lookups may complete before either removal marks the node)
+			k := b2i(g.item(r.Intn(g.nkeys)))
+			for t := range in.Progs {
+				var prog []nwOp
+				if t == 0 || r.Intn(3) == 0 {
+					prog = append(prog, nwOp{"put", k})
+				}
+				prog = append(prog, nwOp{"del", k})
+				if r.Intn(2) == 0 {
+					prog = append(prog, nwOp{[]string{"put", "del", "get"}[r.Intn(3)], k})
+				}
+				in.Progs[t] = prog
+			}
+		}
 	}
 	e.quiesce()
 	// the initial store as the model needs it, and node ids
